@@ -271,6 +271,30 @@ class Agg(object):
             self.violations.append((ref, v))
 
 
+def scratch_base():
+    """Directory under /dev/shm for everything a run writes outside /verif.  Created by the
+    top-level process (which removes it at exit); forked workers and child interpreters
+    started by it put their own sub-directories inside."""
+    import atexit
+    import shutil
+    import tempfile
+
+    base = os.environ.get("VERIF_SCRATCH")
+    if base and os.path.isdir(base):
+        return base
+    root = "/dev/shm" if os.path.isdir("/dev/shm") else None
+    base = tempfile.mkdtemp(prefix="verif-%d-" % os.getpid(), dir=root)
+    os.environ["VERIF_SCRATCH"] = base
+    owner = os.getpid()
+
+    def _rm():
+        if os.getpid() == owner:
+            shutil.rmtree(base, ignore_errors=True)
+
+    atexit.register(_rm)
+    return base
+
+
 def now():
     return time.time()
 
